@@ -371,11 +371,156 @@ def queue_helpers(ctx):
             verdict(ctx, R5, ok, 'edge_iter/walks-back-from-the-given-edge-in-this-queue', an.fn, {'returned': T.show(t)[:160]}, cfg)
 
 
+# ------------------------------------------------------------------------------------------------ leaves of the rigid/flexible matcher (C16)
+
+def matcher_leaves(ctx):
+    """The loops that place rigid patterns are not decided (DESIGN 9), but what they are built from is: a flexible
+    region is accepted only against exactly [Sigma*]; rigid_match_at answers true only after EVERY position j of the
+    pattern was compared, s[i+j] against pattern[j]; the prefix / suffix tests compare at offset 0 / |u| - |p| and only
+    when u is long enough; next / prev_rigid_match report [j, j + |p|) only for a j where rigid_match_at answered true;
+    BasePattern::len is end - start; decompose_concat is the flattened factor list."""
+    R = 'C16.H'
+    RE_ = 'regular_expressions::'
+    u, v, p = A(0), A(1), A(2)
+    for cfg in ('dev', 'rel'):
+        an = analyse(ctx, cfg, RE_ + 'flexible_match', [], uninterpreted=lambda q: q.startswith(RE_))
+        ip, fn = an.ip, an.fn
+        one_ = eq(T.typed(('len', v), 'usize'), I(1))
+        kinds = set()
+        for o in an.outs:
+            if o.kind != 'ret':
+                verdict(ctx, R, False, 'flexible_match/panic', fn, {'leaf_constraints': pc_text(o)}, cfg)
+                continue
+            t = ip.to_term(o.state, o.value)
+            if t == FALSE:
+                ok = True
+                kinds.add('false')
+            else:
+                ok = ip.entails(o.state, one_) and t == ('call', RE_ + 'BaseRegLan::is_full', (('fld', ('elem', v, I(0)), 'expr'),))
+                kinds.add('full')
+            verdict(ctx, R, ok, 'flexible_match/true-only-for-exactly-[sigma-star]', fn, {'returned': T.show(t)[:160], 'leaf_constraints': pc_text(o)}, cfg)
+        verdict(ctx, R, kinds == {'false', 'full'}, 'flexible_match/cases-present', fn, {'cases': sorted(kinds)}, cfg)
+        # rigid_match_at(pattern, s, i)
+        pat, s_, i = A(0), A(1), T.var('a2', 'usize')
+        log = calllog.run(ctx, cfg, RE_ + 'rigid_match_at')
+        ip, fn = log.ip, log.fn
+        MCS = RE_ + 'BaseRegLan::match_char_set'
+
+        def cmp_ok(c, pos, st):
+            a, b = c[1]
+            good = a[0] == 'fld' and a[2] == 'expr' and a[1][0] == 'elem' and a[1][1] == s_ and b == ('elem', pat, pos)
+            return good and (a[1][2] == T.mk_add(i, pos) or (a[1][2][0] == 'var' and 'wrap_add' in a[1][2][1]) or ip.entails(st, eq(a[1][2], T.mk_add(i, pos))))
+        okit = len(log.iterations) >= 1
+        for it in log.iterations:
+            pos = [hv for hv, ev in it.mapping if hv[0] == 'var' and 'iter.pos@' in hv[1]]
+            cs = it.named('match_char_set')
+            ok = len(pos) == 1 and len(cs) == 1 and len(it.calls) == 1 and cmp_ok(cs[0], pos[0], it.state) and ip.entails(it.state, T.typed(calllog.call_term(cs[0]), 'bool')) and \
+                ip.entails(it.state, eq(it.cur.get(pos[0], pos[0]), T.mk_add(pos[0], I(1))))
+            okit = okit and ok
+        verdict(ctx, R, okit, 'rigid_match_at/continues-only-past-a-position-where-s[i+j]-fits-pattern[j]', fn, None, cfg)
+        kinds = set()
+        for o in log.outs:
+            if o.kind != 'ret':
+                continue
+            if o.value == TRUE:
+                ok = loop_exhausted(ip, o.state)
+                kinds.add('true')
+            elif o.value == FALSE:
+                cs = [c for c in o.state.calls if c[0] == MCS]
+                ok = bool(cs) and ip.entails(o.state, NOT(T.typed(calllog.call_term(cs[-1]), 'bool')))
+                kinds.add('false')
+            else:
+                ok = False
+            verdict(ctx, R, ok, 'rigid_match_at/true-only-after-every-position-false-only-on-a-mismatch', fn, {'leaf_constraints': pc_text(o)[-4:]}, cfg)
+        verdict(ctx, R, kinds == {'true', 'false'}, 'rigid_match_at/cases-present', fn, None, cfg)
+        # prefix / suffix
+        plen = T.typed(('call', RE_ + 'BasePattern::len', (p,)), 'usize')
+        for name in ('rigid_prefix_match', 'rigid_suffix_match'):
+            an = analyse(ctx, cfg, RE_ + name, [], uninterpreted=lambda q: q.startswith(RE_))
+            ip, fn = an.ip, an.fn
+            kinds = set()
+            for o in an.outs:
+                if o.kind != 'ret':
+                    continue
+                t = ip.to_term(o.state, o.value)
+                if t == FALSE:
+                    ok = True
+                    kinds.add('false')
+                else:
+                    sets = ('call', RE_ + 'char_sets_of_pattern', (('slice', v, T.fld(p, 'start', 'usize'), T.fld(p, 'end', 'usize')),))
+                    ok = t[0] == 'call' and t[1] == RE_ + 'rigid_match_at' and t[2][0] == sets and t[2][1] == u and ip.entails(o.state, le(plen, T.typed(('len', u), 'usize')))
+                    if ok:
+                        at = t[2][2]
+                        want = I(0) if name == 'rigid_prefix_match' else T.mk_sub(T.typed(('len', u), 'usize'), plen)
+                        # the code measures the pattern by the vector of its character sets: one set per element (rule below)
+                        want2 = I(0) if name == 'rigid_prefix_match' else T.mk_sub(T.typed(('len', u), 'usize'), T.typed(('len', sets), 'usize'))
+                        ok = at in (want, want2) or (name == 'rigid_suffix_match' and at[0] == 'var' and 'wrap_sub' in at[1]) or ip.entails(o.state, eq(at, want))
+                        if name == 'rigid_suffix_match' and at[0] == 'var' and 'wrap_sub' in at[1]:
+                            # release build: the subtraction is unchecked; the guard len(u) >= len(p) on this path makes it exact
+                            ok = ip.entails(o.state, le(plen, T.typed(('len', u), 'usize')))
+                    kinds.add('match')
+                verdict(ctx, R, ok, '%s/compares-the-pattern-sets-at-the-%s-of-u-when-u-is-long-enough' % (name, 'start' if 'prefix' in name else 'end'), fn, {'returned': T.show(t)[:200], 'leaf_constraints': pc_text(o)[-4:]}, cfg)
+            verdict(ctx, R, kinds == {'false', 'match'}, '%s/cases-present' % name, fn, None, cfg)
+        # next / prev rigid match
+        for name in ('next_rigid_match', 'prev_rigid_match'):
+            log = calllog.run(ctx, cfg, RE_ + name)
+            ip, fn = log.ip, log.fn
+            nf = 0
+            for o in log.outs:
+                if o.kind != 'ret':
+                    continue
+                vv = variant_of(ip, o.state, o.value)
+                if vv is None or vv[0] != 'Found':
+                    continue
+                nf += 1
+                x, y = vv[1]
+                rm = [c for c in o.state.calls if c[0] == RE_ + 'rigid_match_at']
+                ok = bool(rm) and rm[-1][1][0] == A(0) and rm[-1][1][1] == A(1) and ip.entails(o.state, T.typed(calllog.call_term(rm[-1]), 'bool'))
+                if ok and cfg == 'dev':
+                    # the index arithmetic is compared in the configuration with overflow checks, where j + len / j - len are
+                    # exact terms; without them the same expressions are fresh wrap variables (the search bounds keep them exact)
+                    at = rm[-1][1][2]
+                    ok = (x == at or ip.entails(o.state, eq(x, at))) and ip.entails(o.state, eq(y, T.mk_add(x, T.typed(('len', A(0)), 'usize'))))
+                verdict(ctx, R, ok, '%s/reports-[j,j+len)-only-where-rigid_match_at-holds' % name, fn, {'returned': safe_show(ip, o)[:200]}, cfg)
+            verdict(ctx, R, nf >= 1, '%s/found-leaf-present' % name, fn, None, cfg)
+    for cfg in ('dev', 'rel'):
+        log = calllog.run(ctx, cfg, RE_ + 'char_sets_of_pattern')
+        ip, fn = log.ip, log.fn
+        okit = len(log.iterations) >= 1
+        for it in log.iterations:
+            pos = [hv for hv, ev in it.mapping if hv[0] == 'var' and 'iter.pos@' in hv[1]]
+            ok = len(pos) == 1 and not it.calls and ip.entails(it.state, discr(('fld', ('elem', A(0), pos[0]), 'expr'), 2))
+            if ok:
+                # exactly one element appended per iteration: the set of that Range
+                vecs = [c.v for c in it.state.frames[-1].cells if isinstance(c.v, X.ListV)]
+                ok = any(len(v_.parts) >= 1 and v_.parts[-1][0] == 'one' and 'Range' in T.show(v_.parts[-1][1]) and T.show(pos[0]) in T.show(v_.parts[-1][1]) and
+                         (len(v_.parts) == 1 or v_.parts[-2][0] != 'one') for v_ in vecs)
+            okit = okit and ok
+        verdict(ctx, R, okit, 'char_sets_of_pattern/one-set-per-element-the-set-of-that-Range', fn, None, cfg)
+        for o in log.outs:
+            if o.kind == 'ret':
+                verdict(ctx, R, loop_exhausted(ip, o.state), 'char_sets_of_pattern/every-element-visited', fn, {'leaf_constraints': pc_text(o)[-3:]}, cfg)
+    accessor(ctx, R, RE_ + 'BasePattern::len', [(None, T.mk_sub(T.fld(A(0), 'end', 'usize'), T.fld(A(0), 'start', 'usize')), {})], assume=[le(T.fld(A(0), 'start', 'usize'), T.fld(A(0), 'end', 'usize'))], name='BasePattern::len')
+    accessor(ctx, R, RE_ + 'BasePattern::make', [(None, ('mk', 'regular_expressions::BasePattern', 'BasePattern', (T.var('a0', 'usize'), T.var('a1', 'usize'), T.var('a2', 'bool'), I(0), I(0))), None)],
+             assume=[lt(T.var('a0', 'usize'), T.var('a1', 'usize'))], name='BasePattern::make')
+    accessor(ctx, R, RE_ + 'BasePattern::set_match', [(None, None, {'start_match': T.var('a1', 'usize'), 'end_match': T.var('a2', 'usize')})], name='BasePattern::set_match')
+    for cfg in ('dev', 'rel'):
+        an = analyse(ctx, cfg, RE_ + 'decompose_concat', [], uninterpreted=lambda q: q.startswith(RE_))
+        for o in an.outs:
+            calls = o.state.calls
+            ok = o.kind == 'ret' and len(calls) == 1 and calls[0][0] == RE_ + 'flatten_concat' and calls[0][1][0] == A(0) and calls[0][1][1] == ('list', ())
+            if ok:
+                t = an.ip.to_term(o.state, o.value)
+                ok = t == ('post', RE_ + 'flatten_concat', 1, ('list', ())) or 'flatten_concat' in T.show(t)
+            verdict(ctx, R, ok, 'decompose_concat/is-the-flattened-factor-list-of-r', an.fn, {'calls': [T.show(calllog.call_term(c))[:120] for c in calls]}, cfg)
+
+
 GROUPS = {
     'c01': [regex_predicates],
     'c04': [minimizer_structures],
     'c11': [partition_accessors],
     'c14': [automaton_accessors],
+    'c16': [matcher_leaves],
     'c19': [queue_helpers],
 }
 
